@@ -127,6 +127,9 @@ def main(pid):
     items = [{"text": d, "tok": "aho"} for d in docs] + [{"text": d, "tok": "hs"} for d in docs]
     ref = docs[:: (3 if thorough else 12)]
     items += [{"text": d, "tok": "ref"} for d in ref]
+    # history: the judged tokenize() call is the tokenizer instance's SECOND look at that text, after the tokens of the
+    # first were used to build citations
+    items += [{"text": d, "tok": t, "again": True} for t in ("aho", "hs") for d in docs[:: (4 if thorough else 10)]]
     rnd.shuffle(items)
     obs = vlib.impl_map("drv_tokenize", "run_docs", items, env={"VERIF_HS_CACHE": str(hs_dir)})
     import shutil
@@ -148,6 +151,7 @@ def main(pid):
         vd.spec_drift("Tokenize", f"document {items[ix]['text'][:80]!r} tokenizer={items[ix]['tok']}")
     ev.sample({"document": items[0]["text"], "tokenizer": items[0]["tok"],
                "words": ["".join(map(chr, w["t"])) for w in obs[0]["words"]]})
+    ev.cov["second_look_items"] = sum(1 for it in items if it.get("again"))
     ev.cov["traces_validated_against_impl"] = total
     ev.cov["evaluations"] = total
     ev.cov["distinct_nontrivial"] = len(traces) + len(set(docs))
